@@ -55,7 +55,8 @@ RULE = (
     "initial disk state of document file (missing, correct, truncated, empty, longer), archive (missing, correct, truncated, longer, "
     "corrupted in the middle with its size kept), offset table (missing, correct, stale from another file, truncated at byte k; "
     "older/same/newer mtime than the document file) and a leftover .tmp; a download script of up to 12 outcomes (ok, chunked, 206, "
-    "403/404/500/503, short body, reset, chunked body cut mid-chunk, stalled read, wrong content of right length, wrong-size HTML page); "
+    "403/404/500/503, short body, reset, chunked body cut mid-chunk, stalled read, wrong content of right length, wrong-size HTML page; eleven "
+    "retriable failures in a row ending in any of them); template: leftover offset table next to a document file this run has to decompress again; "
     "optionally an earlier run of the same preparation that is killed after n file-system events (optionally with a torn write) or runs "
     "to its end; external decompressors: as installed (pigz only), plus stand-ins for pbzip2/pzstd, or none at all. Non-trivial = the run under test retried a download (>= 2 requests) or decompressed at least once, AND started from a "
     "non-pristine disk (some initial file present or an earlier run happened). Distinct = distinct canonical JSON. Enumerated "
